@@ -60,9 +60,9 @@ PROPS["C03"] = {
     "assumptions": ["JSON text layer: parse(print(tree)) = tree", "generic data numbers are float64-exact"],
 }
 PROPS["C04"] = {
-    "level_text": "Theorems (Properties/C04.v): for every v1 payload value of the four migratable kinds (shadow schemas generated from the code), every field of the expected mapping table written from the statement is carried to its version-2 place, the result reports version 1, account signing keys become exactly the key set of the list, the result is a well-typed v2 value (so C03 applies to its re-encoding); a member absent from the payload keeps the preset and the legacy limit presets are -1; unknown (deprecated) members never make decoding fail. Tie: random v1compat claims of the five kinds encoded by the real v1 encoder, decoded by v2 Decode/DecodeGeneric, compared with an independently written expected mapping (400 per kind), re-encoded; the v1 enc tree and shadow-decode+migrate compared with the model in Coq (40 per kind).",
-    "level_note": NOTE_COMMON + "Source-network strings are kept ASCII (Unicode white space / case folding outside the model). The v1compat encoder's own schema is generated separately; the cross-schema step (v1 writer -> shadow reader) is covered by the correspondence run, not by a theorem.",
-    "assumptions": ["v1 writer / shadow reader agreement is checked on explored cases only"],
+    "level_text": "Theorems (Properties/C04.v): (1) FROM THE V1 ENCODER TO THE V2 CLAIMS - the schema of each v1compat claims type (writer) and of the shadow struct the v2 decoder reads it with (reader), both generated from the code, satisfy a decidable reader/writer relation (members found by exact JSON name, Go's case-folding fallback cannot pick another, equal or structurally related member types, an integer read as a sampling rate, a comma string read as a network list); a general cross-decode theorem (any such reader, writer and preset): decoding what the writer encoded succeeds and agrees with the written value member by member, element by element, a member the writer lacks or omitted as empty keeps the preset; hence for EVERY v1 claims value of the four migratable kinds the v2 loader accepts the payload, and every field of the expected mapping table (written from the statement) holds in the v2 claims either the preset (-1 for the legacy limits the v1 types cannot express, or an omitted empty member) or a value agreeing with the v1 field; and AT TOKEN LEVEL the text the v1 encoder writes (v1 header, that payload, signature over the payload segment, concrete base64url) is accepted by the v2 decoder model whose JSON steps are the codec on the generated schemas: kind = the v1 top-level type, version 1, signature checked over the payload segment under the payload's issuer, claims = migration of the agreeing shadow value. (2) on the shadow value: every listed field is copied to its v2 place, version 1 reported, signing-key list -> key set, result well typed (so C03 applies to re-encoding), absent member keeps preset, unknown members ignored. Tie: random v1compat claims of the five kinds encoded by the real v1 encoder, decoded by v2 Decode and DecodeGeneric, compared with an independently written expected mapping (400 per kind), re-encoded; the v1 enc tree and shadow-decode+migrate compared with the model in Coq (40 per kind).",
+    "level_note": NOTE_COMMON + "Source-network strings are kept ASCII (Unicode white space / case folding outside the model). At leaves of equal type the agreement is up to nil = empty (canon), as in C03. Generic v1 claims go through the generic loader (C03) and DecodeGeneric's re-homing (model decode_generic_val), tied by the correspondence run.",
+    "assumptions": ["JSON text layer: parse(print(tree)) = tree"],
 }
 
 PROPS["C17"] = {
@@ -140,4 +140,4 @@ def _known_tag(tag):
     return f
 
 
-KNOWN_MATCHERS = {"K3": _k3, "K1": _known_tag("K1"), "K2": _known_tag("K2")}
+KNOWN_MATCHERS = {"K3": _k3, "K1": _known_tag("K1"), "K2": _known_tag("K2"), "K4": _known_tag("K4")}
